@@ -382,6 +382,10 @@ class ScriptAction:
                     out = 'accepted'
                 except (TypeError, AssertionError, RuntimeError) as e:
                     out = 'refused:' + type(e).__name__
+            elif kind == 'scratch_env':
+                ids = [d.id for d in list(w.devs.values())[:4] if hasattr(d, 'id')] or [1]
+                instrument.scratch_environment(ids + [-1] if op.get('with_minus_one') else ids)
+                out = len(ids)
             elif kind == 'sched_unregister':
                 out = w.devs[op['sched']].unregister_object(w.devs[op['target']])
             elif kind == 'sched_register':
@@ -559,9 +563,10 @@ class HGen(PartGenerator):
     """Part generator that stamps every leaf part with a harness uid."""
 
     def __init__(self, src_id, values, qualities, batch_sizes, log, scratch=False, batch_sub=False,
-                 batch_nested=False, falsy=False):
+                 batch_nested=False, falsy=False, batch_append=False):
         super().__init__(name_prefix=src_id)
         self.falsy = falsy
+        self.batch_append = batch_append
         self.batch_sub = batch_sub
         self.batch_nested = batch_nested
         self.scratch = [] if scratch else None
@@ -574,7 +579,7 @@ class HGen(PartGenerator):
     def __deepcopy__(self, memo):
         import copy
         g = HGen(self.src_id, self.values, self.qualities, self.batch_sizes, NULL_LOG, batch_sub=self.batch_sub,
-                 batch_nested=self.batch_nested, falsy=self.falsy)
+                 batch_nested=self.batch_nested, falsy=self.falsy, batch_append=self.batch_append)
         memo[id(self)] = g
         # the generator's own state (the base class numbers the parts) travels with the copy; only the log does not
         for k, v in self.__dict__.items():
@@ -608,6 +613,11 @@ class HGen(PartGenerator):
                 boxes = [Batch(name=f'{part_name}/box{j}', parts=parts[j * k:(j + 1) * k] if j == 0 else parts[k:])
                          for j in range(2)]
                 top = Batch(name=part_name, parts=boxes)
+            elif self.batch_append:
+                # the way examples/BatchProcessing.py fills a batch: made empty, filled through Batch.parts
+                top = Batch(name=part_name)
+                for x in parts:
+                    top.parts.append(x)
             elif self.batch_sub:
                 top = HPallet(part_name, parts, n)
             else:
@@ -713,7 +723,8 @@ def build(spec, bus=None, script=True, system=None, known=None):
         if k == 'source':
             gen = cls['HGen'](i, it.get('values', [0]), it.get('qualities', [1]), it.get('batch'), log,
                               scratch=bool(it.get('scratch')), batch_sub=bool(it.get('batch_sub')),
-                              batch_nested=bool(it.get('batch_nested')), falsy=bool(it.get('falsy')))
+                              batch_nested=bool(it.get('batch_nested')), falsy=bool(it.get('falsy')),
+                              batch_append=bool(it.get('batch_append')))
             kw = {}
             if it.get('budget') is not None:
                 kw['starting_parts'] = it['budget']
